@@ -18,9 +18,9 @@ import (
 )
 
 // Every way outside data becomes a keyset.Handle (KeysetValidate.tla, Entries).
-var protoEntries = []string{"proto-nosecrets", "proto-cleartext"}
+var protoEntries = []string{"proto-nosecrets", "proto-cleartext", "mem-clear", "mem-nosecrets"}
 var readerEntries = []string{"clear-bin", "clear-json", "nosecrets-bin", "nosecrets-json",
-	"enc-bin", "enc-json", "encad-bin", "encad-json", "encctx-bin", "encctx-json"}
+	"enc-bin", "enc-json", "encad-bin", "encad-json", "encctx-bin", "encctx-json", "mem-enc"}
 
 // hEntry is what an accepted handle shows for one key (public API only).
 type hEntry struct {
@@ -167,6 +167,16 @@ func load(entry string, in *inputs) (*keyset.Handle, error) {
 			return nil, fmt.Errorf("nil handle")
 		}
 		return h, nil
+	case "mem-clear":
+		return insecurecleartextkeyset.Read(&keyset.MemReaderWriter{Keyset: in.pb})
+	case "mem-nosecrets":
+		return keyset.ReadWithNoSecrets(&keyset.MemReaderWriter{Keyset: in.pb})
+	case "mem-enc":
+		ek := new(tinkpb.EncryptedKeyset)
+		if err := proto.Unmarshal(in.encBin, ek); err != nil {
+			return nil, err
+		}
+		return keyset.Read(&keyset.MemReaderWriter{EncryptedKeyset: ek}, kek)
 	case "clear-bin":
 		return insecurecleartextkeyset.Read(keyset.NewBinaryReader(bytes.NewReader(in.bin)))
 	case "clear-json":
